@@ -283,6 +283,9 @@ func (c *Check) Finish() {
 		c.Broken("evidence: %v", err)
 	}
 	dir := filepath.Join(Root, "evidence")
+	if d := os.Getenv("VERIF_EVIDENCE_DIR"); d != "" {
+		dir = d // runs against deliberately broken trees (tools/trymutant.sh) must not overwrite the evidence
+	}
 	_ = os.MkdirAll(dir, 0o755)
 	if err := os.WriteFile(filepath.Join(dir, c.ID+".json"), append(b, '\n'), 0o644); err != nil {
 		c.Broken("evidence: %v", err)
